@@ -53,6 +53,9 @@ func respell(r *h.Rand, s string) string {
 	return b.String()
 }
 
+var c04held []byte
+var c04heldText string
+
 var c04typed = []struct {
 	name string
 	kind string
@@ -117,9 +120,15 @@ func init() {
 						c.Fail("", "wkt.MarshalString panicked", map[string]interface{}{"geometry": sv(g), "panic": sv(pv), "stack": st})
 						return
 					}
-					if string(wkt.Marshal(g)) != text {
+					mb := wkt.Marshal(g)
+					if string(mb) != text {
 						c.Fail("", "wkt.Marshal and MarshalString differ", map[string]interface{}{"geometry": sv(g)})
 					}
+					// the bytes returned by Marshal stay the caller's: hold the previous case's output across this marshal
+					if c04held != nil && string(c04held) != c04heldText {
+						c.Fail("", "bytes returned by an earlier wkt.Marshal call were overwritten by a later marshal", map[string]interface{}{"earlier_output_now": string(c04held), "earlier_output_then": c04heldText})
+					}
+					c04held, c04heldText = mb, text
 					c.Evals(2)
 					nsp := 5
 					if c.Thorough() {
